@@ -130,7 +130,7 @@ def _same(a, b):
     return a.shape == b.shape and a.dtype == b.dtype and a.tobytes() == b.tobytes()
 
 
-def check_seq(seq, pandas=False, meta=True):
+def check_seq(seq, pandas=False, meta=True, forms=False):
     """returns (list of violation messages, signature)"""
     msgs = []
     flags = set()
@@ -191,6 +191,30 @@ def check_seq(seq, pandas=False, meta=True):
                 msgs.append("cyclecount.rainflow pandas form != ASTM")
         except Exception as e:  # noqa
             msgs.append("cyclecount.rainflow pandas form raised %r" % (e,))
+    if forms and not msgs:
+        # the same sequence handed over in other array forms must give the same table (no assumption of contiguity/dtype)
+        buf = np.empty(2 * n + 3)
+        buf[:] = 777.0
+        buf[1 : 1 + 2 * n : 2] = arr
+        two = np.full((n, 3), -555.0, order="C")
+        two[:, 1] = arr
+        variants = {"strided": buf[1 : 1 + 2 * n : 2], "reversed-view": arr[::-1].copy()[::-1], "2d-column": two[:, 1], "list": [float(x) for x in arr],
+                    "fortran-col": np.asfortranarray(np.column_stack((arr, arr + 1.0)))[:, 0]}
+        if float(arr.max()).is_integer() and float(arr.min()).is_integer():
+            variants["int64"] = arr.astype(np.int64)
+            variants["int32-strided"] = np.repeat(arr.astype(np.int32), 2)[::2]
+        for name in ("c_fast", "c_twopass", "py_rain", "cyclecount"):
+            fn = _IMPLS[name]
+            for vn, x in variants.items():
+                try:
+                    t1 = np.asarray(fn(x))
+                    t2, o2 = fn(x, getoffsets=True)
+                except Exception as e:  # noqa
+                    msgs.append("%s raised %r for input form %s" % (name, e, vn))
+                    continue
+                if not (_same(np.ascontiguousarray(t1, dtype=float), ref_rf) and _same(np.ascontiguousarray(t2, dtype=float), ref_rf)
+                        and _same(np.ascontiguousarray(o2).astype(np.int64), ref_os)):
+                    msgs.append("%s: input form '%s' gives a different table than the contiguous float64 array" % (name, vn))
     if meta and not msgs:
         # metamorphic: negate / exact shift / power-of-two scale, on C and Python
         for name in ("c_fast", "py_rain"):
@@ -220,9 +244,23 @@ def run_shard(sh):
     it = itertools.islice(itertools.product(vals, repeat=n), sh["lo"], sh["hi"])
     pandas = n <= sh["pandas_max"] and sh["alpha"] == "int"
     pick = ((sh["seed"] + 1) * 7919) % (sh["hi"] - sh["lo"])
+    kept = None
     for i, seq in enumerate(it):
         progress({"seq": list(seq)})
-        msgs, sig = check_seq(seq, pandas=pandas)
+        msgs, sig = check_seq(seq, pandas=pandas, forms=(n <= 6))
+        # results handed out earlier must not change when the functions are called again (no shared work buffers)
+        if kept is not None:
+            for nm, (seq0, t0, o0, tb, ob) in kept.items():
+                if not (t0.tobytes() == tb and o0.tobytes() == ob):
+                    msgs.append("%s: the table/offsets returned for %s changed after a later call" % (nm, list(seq0)))
+        if i % 3 == 0:
+            kept = {}
+            a_ = np.array(seq, dtype=float)
+            for nm in ("c_fast", "c_twopass", "py_rain"):
+                t0, o0 = _IMPLS[nm](a_, getoffsets=True)
+                t1 = _IMPLS[nm](a_)
+                kept[nm] = (seq, t0, o0, t0.tobytes(), o0.tobytes())
+                kept[nm + "/nooffsets"] = (seq, t1, t1[:0], t1.tobytes(), t1[:0].tobytes())
         res.ev(sh["alpha"] + "/" + sig, outcome=sig)
         if i == pick and n >= 5:
             res.sample({"seq": list(seq), "signature": sig})
@@ -237,5 +275,17 @@ def replay(case):
         n = len(case["seq"])
         r = _asan_shard({"variant": case["asan_variant"], "L": n, "k": max(case["seq"]) + 1})
         return [v["msg"] for v in r.viols]
-    msgs, _ = check_seq(case["seq"], pandas=len(case["seq"]) <= 6)
+    msgs, _ = check_seq(case["seq"], pandas=len(case["seq"]) <= 6, forms=True)
+    if not msgs:
+        # aliasing across calls: replay the sequence followed by its neighbours
+        a_ = np.array(case["seq"], dtype=float)
+        for nm in ("c_fast", "c_twopass", "py_rain"):
+            t0, o0 = _IMPLS[nm](a_, getoffsets=True)
+            tb, ob = t0.tobytes(), o0.tobytes()
+            for other in (a_[::-1].copy(), np.array([0.0, 1.0] * max(1, len(a_) // 2 + 1))[: len(a_)], np.arange(len(a_), dtype=float)):
+                if len(other) >= 2:
+                    _IMPLS[nm](other, getoffsets=True)
+                    _IMPLS[nm](other)
+            if t0.tobytes() != tb or o0.tobytes() != ob:
+                msgs.append("%s: the table/offsets returned for %s changed after a later call" % (nm, case["seq"]))
     return msgs
